@@ -23,13 +23,16 @@ def enc(b):
     return "x:" + b.hex()
 
 
+ENCODING = ["utf-8"]  # encoding option of the index under test (set per run by the engine)
+
+
 def dec(s):
     if s.startswith("a:"):
         return s[2:].encode("ascii")
     if s.startswith("x:"):
         return bytes.fromhex(s[2:])
     if s.startswith("u:"):
-        return s[2:].encode("utf-8")
+        return s[2:].encode(ENCODING[0])
     raise ValueError(s)
 
 
@@ -45,7 +48,8 @@ def arg(s):
 class Sut(object):
     """One index under test (real code) on a given back-end."""
 
-    def __init__(self, backend, default_rule, rules, disk=None, folder="/idx", encoding="utf-8"):
+    def __init__(self, backend, default_rule, rules, disk=None, folder="/idx", encoding=None):
+        encoding = encoding or ENCODING[0]
         self.backend = backend  # "sim" | "mem" | "real"
         self.folder = folder if backend != "mem" else None
         self.disk = disk if disk is not None else (SimDisk() if backend == "sim" else None)
@@ -187,6 +191,20 @@ def drive_until_done(gen):
     return result
 
 
+def seq_lrus(op):
+    """Compact form of a wide directory: `count` numbered pages below `base`, in ascending,
+    descending or seeded-shuffled order."""
+    import random as _r
+
+    base = dec(op["base"])
+    idx = list(range(op["count"]))
+    if op.get("order") == "desc":
+        idx.reverse()
+    elif op.get("order") == "shuffled":
+        _r.Random(op.get("shuffle_seed", 0)).shuffle(idx)
+    return [base + b"p:n%04d|" % i for i in idx]
+
+
 def exec_sut(sut, op, refs, model):
     """Run one write/restart op on the real index; returns canonical outcome.
     Only TraphException counts as a refusal; anything else propagates."""
@@ -199,6 +217,8 @@ def exec_sut(sut, op, refs, model):
             return canon_report(t.add_page(arg(op["lru"]), crawled=op.get("crawled", False)))
         if k == "add_pages":
             return canon_report(t.add_pages([arg(x) for x in op["lrus"]], crawled=op.get("crawled", False)))
+        if k == "add_pages_seq":
+            return canon_report(t.add_pages(seq_lrus(op), crawled=op.get("crawled", False)))
         if k == "add_links":
             return canon_report(t.add_links([(arg(s), arg(x)) for s, x in op["links"]] * op.get("repeat", 1)))
         if k == "batch":
@@ -256,6 +276,8 @@ def exec_model(model, op, refs, observed):
             return canon_model_report(model.add_page(dec(op["lru"]), op.get("crawled", False))), None
         if k == "add_pages":
             return canon_model_report(model.add_pages([dec(x) for x in op["lrus"]], op.get("crawled", False))), None
+        if k == "add_pages_seq":
+            return canon_model_report(model.add_pages(seq_lrus(op), op.get("crawled", False))), None
         if k == "add_links":
             return canon_model_report(model.add_links([(dec(s), dec(x)) for s, x in op["links"]] * op.get("repeat", 1))), None
         if k == "batch":
